@@ -29,8 +29,13 @@ pub enum Feat {
     V2MutableDheaderIgnored,
     /// XCDR1: mutable union below the top level (the reader never consumes the parameter list)
     V1NestedMutableUnion,
-    /// XCDR1: nested mutable struct with a member id 1 (= the PID the reader takes for the sentinel)
+    /// XCDR1: nested mutable struct with a member id 1 (= RTPS PID_SENTINEL, which dust-dds uses as
+    /// list terminator instead of PID_LIST_END 0x3F02; the reader stops at the member)
     V1NestedMutableId1,
+    /// XCDR1: any mutable aggregate: parameter list terminated by PID 0x0001 instead of 0x3F02 (C10)
+    V1ListEnd,
+    /// XCDR2: EMHEADER LC 6/7 on a sequence of 4/8-byte primitives (reader does not share NEXTINT) (C10, decode)
+    V2ReaderLc67,
     /// XCDR1: appendable union (the reader expects a DHEADER that XCDR1 does not have)
     V1AppendableUnion,
     /// XCDR1: float128 member (written with 8-byte alignment, read with 16-byte alignment)
@@ -54,7 +59,9 @@ impl Feat {
             Feat::NonFinalUnionElem => "collection-of-non-final-union",
             Feat::V2MutableDheaderIgnored => "xcdr2-mutable-dheader-ignored",
             Feat::V1NestedMutableUnion => "xcdr1-nested-mutable-union",
-            Feat::V1NestedMutableId1 => "xcdr1-nested-mutable-struct-member-id-1",
+            Feat::V1NestedMutableId1 => "xcdr1-member-id-1-taken-for-sentinel",
+            Feat::V1ListEnd => "xcdr1-list-terminated-by-pid-1-not-0x3f02",
+            Feat::V2ReaderLc67 => "xcdr2-lc6-lc7-nextint-not-shared",
             Feat::V1AppendableUnion => "xcdr1-appendable-union",
             Feat::V1Float128 => "xcdr1-float128-alignment",
             Feat::V2IdsCollideMod16 => "xcdr2-member-ids-equal-mod-65536",
@@ -77,8 +84,21 @@ impl Feat {
             Feat::V1Float128,
             Feat::V2IdsCollideMod16,
             Feat::V2MutablePrimSeqLc,
+            Feat::V2ReaderLc67,
+            Feat::V1ListEnd,
             Feat::WString,
         ]
+    }
+
+    /// does the root cause sit in the serializer / in the deserializer?
+    pub fn affects_writer(self) -> bool {
+        matches!(
+            self,
+            Feat::Char8NonAscii | Feat::V1OptionalInFinal | Feat::V1BigId | Feat::V1LongParam | Feat::NonFinalUnionElem | Feat::V2MutablePrimSeqLc | Feat::V1ListEnd
+        )
+    }
+    pub fn affects_reader(self) -> bool {
+        !matches!(self, Feat::Char8NonAscii | Feat::NonFinalUnionElem | Feat::V2MutablePrimSeqLc | Feat::WString)
     }
 }
 
@@ -119,6 +139,7 @@ impl Allowed {
                 ],
             },
             "C10" => Allowed { known: Feat::all().into_iter().filter(|f| *f != Feat::WString).collect() },
+            // (V1ListEnd and V2ReaderLc67 are only consulted by C10)
             "C39" => Allowed {
                 known: vec![
                     Feat::Char8NonAscii,
@@ -260,6 +281,9 @@ pub fn scan(ty: &Ty, v: &Val, enc: Enc) -> Vec<Feat> {
         if ty.any(&|t| matches!(t, Ty::Prim(Prim::F128))) {
             f.push(Feat::V1Float128);
         }
+        if ty.any(&|t| matches!(t.ext(), Some(Ext::Mutable))) {
+            f.push(Feat::V1ListEnd);
+        }
     }
     if !v1 {
         if nested_any(ty, &|t| matches!(t.ext(), Some(Ext::Mutable)))
@@ -287,6 +311,13 @@ pub fn scan(ty: &Ty, v: &Val, enc: Enc) -> Vec<Feat> {
         }) {
             f.push(Feat::V2MutablePrimSeqLc);
         }
+        if ty.any(&|t| match t {
+            Ty::Struct(s) if s.ext == Ext::Mutable => s.members.iter().any(|m| matches!(&m.ty, Ty::Seq(e, _) if matches!(**e, Ty::Prim(p) if p.size() >= 4 && p.size() <= 8))),
+            Ty::Union(u) if u.ext == Ext::Mutable => u.cases.iter().any(|c| matches!(&c.ty, Some(Ty::Seq(e, _)) if matches!(**e, Ty::Prim(p) if p.size() >= 4 && p.size() <= 8))),
+            _ => false,
+        }) {
+            f.push(Feat::V2ReaderLc67);
+        }
     }
     f
 }
@@ -294,6 +325,12 @@ pub fn scan(ty: &Ty, v: &Val, enc: Enc) -> Vec<Feat> {
 /// The feature a failure is attributed to: the first known one present.
 pub fn blame(feats: &[Feat], allowed: &Allowed) -> Option<Feat> {
     feats.iter().copied().find(|f| allowed.has(*f))
+}
+pub fn blame_writer(feats: &[Feat], allowed: &Allowed) -> Option<Feat> {
+    feats.iter().copied().find(|f| allowed.has(*f) && f.affects_writer())
+}
+pub fn blame_reader(feats: &[Feat], allowed: &Allowed) -> Option<Feat> {
+    feats.iter().copied().find(|f| allowed.has(*f) && f.affects_reader())
 }
 
 /// Rewrite a generated type so that none of the known trigger shapes occurs.
